@@ -626,6 +626,20 @@ impl<T: Config> UdpProtocol<T> {
             return;
         }
 
+        // Until the handshake has completed we do not know the peer's magic, so the filter above
+        // lets everything through. Only handshake messages can be trusted at that point; the
+        // peer retransmits anything else it sent early (inputs stay pending until acknowledged).
+        if matches!(
+            self.state,
+            ProtocolState::Initializing | ProtocolState::Synchronizing
+        ) && !matches!(
+            msg.body,
+            MessageBody::SyncRequest(_) | MessageBody::SyncReply(_)
+        ) {
+            trace!("Received non-handshake message before synchronization; ignoring");
+            return;
+        }
+
         // update time when we last received packages
         self.last_recv_time = Instant::now();
 
